@@ -53,8 +53,8 @@ def carry_step(sl):
         interval = fresh_real("interval", 0)
         bucket = fresh_int("bucket", BI)
         total = fresh_int("total", 0)
-        has = fresh_bool("has")
-        stype = fresh_int("stype", 0, 1)
+        has = sl["has"] if "has" in sl else fresh_bool("has")
+        stype = sl["stype"] if "stype" in sl else fresh_int("stype", 0, 1)
         core.assume(interval < bucket)  # a bucket is open between two calls
         carried = _samples("u", nu, start)
         for s in carried:
@@ -207,11 +207,21 @@ def other_task_frame(sl):
 
 def _carry_slices(tier):
     m = 2 if tier == "quick" else 3
-    return [{"carried": u, "new": b, "_w": u + b} for u in range(0, m + 1) for b in range(1, m + 1)]
+    out = []
+    for u in range(0, m + 1):
+        for b in range(1, m + 1):
+            if u + b >= 4:
+                # split the big slices by the (symbolic elsewhere) state type / flag for parallelism
+                out += [{"carried": u, "new": b, "stype": st, "has": h, "_w": u + b} for st in (0, 1) for h in (False, True)]
+            else:
+                out.append({"carried": u, "new": b, "_w": u + b})
+    return out
 
 
 READS = [driver.ThroughputCalculator.calculate, driver.ThroughputCalculator.calculate_task_throughput,
          driver.ThroughputCalculator.map_task_throughput, driver.ThroughputCalculator.TaskStats]
+
+BUDGET = {"quick": 150, "thorough": 2400}
 
 HARNESSES = [
     Harness("carry_step", carry_step, "symbolic", _carry_slices, reads=READS,
